@@ -3,7 +3,7 @@
 # without it, baseline suite passes with it) in a fresh scratch worktree, then runs the check against it.
 id=$1; tier=${2:-quick}
 export GOFLAGS=-mod=mod GOPROXY=off GOSUMDB=off GOTOOLCHAIN=local
-S=/tmp/seed-$id; V=/tmp/seedv-$id
+S=${SEEDPREFIX:-/tmp/seed}-$id; V=/tmp/seedv-$id
 [ -f $S/patch.diff ] || { echo "no patch"; exit 2; }
 git -C /repo worktree remove --force $V 2>/dev/null; git -C /repo worktree add -q $V HEAD || exit 2
 demo=$(cd $S && git status --short | grep seed_demo_test.go | awk '{print $2}')
